@@ -2,12 +2,20 @@
 use crate::driver::{Ctx, Violation};
 use serde_json::Value;
 
+pub mod c01;
+pub mod c02;
+pub mod c03;
 pub mod c05;
+pub mod c10;
 
-pub const ALL: &[&str] = &["C05"];
+pub const ALL: &[&str] = &["C01", "C02", "C03", "C05", "C10"];
 
 pub fn run(id: &str, ctx: &Ctx) {
     match id {
+        "C01" => c01::run(ctx),
+        "C02" => c02::run(ctx),
+        "C03" => c03::run(ctx),
+        "C10" => c10::run(ctx),
         "C05" => c05::run(ctx),
         _ => {
             eprintln!("unknown property {id}");
@@ -18,6 +26,10 @@ pub fn run(id: &str, ctx: &Ctx) {
 
 pub fn replay(id: &str, ctx: &Ctx, sub: &str, case: &Value) -> Vec<Violation> {
     match id {
+        "C01" => c01::replay(ctx, sub, case),
+        "C02" => c02::replay(ctx, sub, case),
+        "C03" => c03::replay(ctx, sub, case),
+        "C10" => c10::replay(ctx, sub, case),
         "C05" => c05::replay(ctx, sub, case),
         _ => {
             eprintln!("unknown property {id}");
